@@ -35,3 +35,10 @@ Proof. repeat split; vm_compute; reflexivity. Qed.
 Lemma fixed_modes_facts :
   enc_fixed CER = (Some false, Some 1000) /\ enc_fixed DER = (Some true, Some 0) /\ enc_fixed BER = (None, None).
 Proof. repeat split. Qed.
+
+Definition exc_sub (a b: exc_name) : bool := existsb (fun p => exc_eqb (fst p) a && exc_eqb (snd p) b) exc_subclass.
+
+Lemma error_lattice_facts :
+  exc_sub XEndOfStreamError XSubstrateUnderrunError = true
+  /\ exc_sub XSubstrateUnderrunError XPyAsn1Error = true.
+Proof. split; vm_compute; reflexivity. Qed.
